@@ -86,10 +86,28 @@ def _signals(peer, n0):
     return out
 
 
+def _queue(bus, name):
+    """Owner + waiters of a name, as the bus itself reports them (ListQueuedOwners; [] when nobody owns it)."""
+    try:
+        return list(bus.dbus_ListQueuedOwners(name))
+    except Exception as e:
+        if type(e).__name__ != 'DError':
+            raise
+        return []
+
+
+def _recorded_allow(peer, name):
+    """The allow-replacement bit the bus recorded for a client (None when this tree keeps it elsewhere)."""
+    m = getattr(peer, 'busNames', None)
+    if isinstance(m, dict):
+        return (name in m), (bool(m[name]) if name in m else None)
+    return None, None
+
+
 def _check_table(bus, peers, table, names, connected):
     for name in names:
         want = table.queue(name)
-        got = [p.uniqueName for p in bus.busNames.get(name, [])]
+        got = _queue(bus, name)
         if want:
             check(len(got) >= 1 and got[0] == want[0], 'owner differs from the reference name table')
         check(got == want, 'owner/queue differs from the reference name table')
@@ -135,11 +153,15 @@ def build(family, p):
                 for pr in peers:
                     b.clients[pr.uniqueName] = pr
             table = R.Table()
-            if qs:
-                b.busNames[NAME] = [peers[q] for q in qs]
-                table.names[NAME] = [[peers[q].uniqueName, bool(al)] for q, al in zip(qs, allows)]
-                for q, al in zip(qs, allows):
-                    peers[q].busNames[NAME] = al
+            # the arbitrary pre-state (owner, waiters in order, their allow bits) is reached through the bus's own
+            # entry point: the first requester owns the name, the others queue behind it in request order
+            for q, al in zip(qs, allows):
+                fl = 1 if al else 0
+                b.dbus_RequestName(NAME, fl, dbusCaller=peers[q].uniqueName)
+                table.request(NAME, peers[q].uniqueName, bool(al), False, False)
+            with notrace():
+                if _queue(b, NAME) != table.queue(NAME):
+                    raise HarnessError('pre-state could not be established through RequestName')
             me = peers[c]
             n0 = [len(pr.sent) for pr in peers]
             connected = {pr.uniqueName for pr in peers}
@@ -150,7 +172,7 @@ def build(family, p):
                 alt = table.copy()
                 want, ev = table.request(NAME, me.uniqueName, al, rp, nq)
                 check(code == want, 'RequestName reply code differs from the caller\'s resulting relation to the name')
-                got = [x.uniqueName for x in b.busNames.get(NAME, [])]
+                got = _queue(b, NAME)
                 wq = table.queue(NAME)
                 if ('lost', old_owner) in ev and old_owner is not None:
                     # replaced owner: dropped (reference) or queued right behind the new owner: both accepted
@@ -173,11 +195,14 @@ def build(family, p):
                 # allow-replacement bit recorded for every client that owns or waits (it decides later requests)
                 for who, allow in table.names.get(NAME, []):
                     pr = [x for x in peers if x.uniqueName == who][0]
-                    check(NAME in pr.busNames and bool(pr.busNames[NAME]) == bool(allow),
-                          'allow-replacement flag recorded for a client differs from its latest request')
+                    has, rec = _recorded_allow(pr, NAME)
+                    if has is not None:
+                        check(has and rec == bool(allow),
+                              'allow-replacement flag recorded for a client differs from its latest request')
                 for pr in peers:
                     if pr.uniqueName not in got:
-                        check(NAME not in pr.busNames, 'a client that neither owns nor waits still has the name in its map')
+                        has, rec = _recorded_allow(pr, NAME)
+                        check(not has, 'a client that neither owns nor waits still has the name in its map')
             elif op == 'release':
                 code = b.dbus_ReleaseName(NAME, dbusCaller=me.uniqueName)
                 want, ev = table.release(NAME, me.uniqueName)
@@ -282,7 +307,7 @@ def build(family, p):
                 table.disconnect(pr.uniqueName)
             # after every step: lookups agree with the table, invariant holds
             for name in NAMES:
-                got = [x.uniqueName for x in b.busNames.get(name, [])]
+                got = _queue(b, name)
                 want = table.queue(name)
                 if len(want) >= 2 and got != want:
                     # tolerate a replaced owner kept in the queue
@@ -294,8 +319,10 @@ def build(family, p):
                 check(sorted(got) == sorted(want) or set(want) <= set(got), 'queue membership differs from the reference')
                 for who, allow in table.names.get(name, []):
                     pr2 = [x for x in peers if x.uniqueName == who][0]
-                    check(name in pr2.busNames and bool(pr2.busNames[name]) == bool(allow),
-                          'allow-replacement flag recorded for a client differs from its latest request')
+                    has, rec = _recorded_allow(pr2, name)
+                    if has is not None:
+                        check(has and rec == bool(allow),
+                              'allow-replacement flag recorded for a client differs from its latest request')
                 asker = [x for x in peers if x.uniqueName in connected]
                 if asker:
                     r = call(asker[0], 'GetNameOwner', 's', [name])
